@@ -218,6 +218,16 @@ func c05sConcatReader(f *ast.File) (string, error) {
 	}
 	// for { chunk, err := sr.Recv(); if err != nil { if err == io.EOF { break }; ...; return }; items = append(items, chunk) }
 	fs, ok := l[i].(*ast.ForStmt)
+	if ok && fs.Init == nil && fs.Cond == nil && fs.Post == nil && len(fs.Body.List) == 4 {
+		// chunk, err := sr.Recv(); if err == io.EOF { break }; if err != nil { ...; return }; items = append(items, chunk)
+		// is the loop with the end-of-stream test nested in the error branch (io.EOF is a non-nil error)
+		if eof, isIf := fs.Body.List[1].(*ast.IfStmt); isIf && eof.Init == nil && eof.Else == nil && c05Squash(types.ExprString(eof.Cond)) == "err==io.EOF" {
+			if eif, isIf2 := fs.Body.List[2].(*ast.IfStmt); isIf2 && eif.Init == nil && eif.Else == nil && c05sIsErrNotNil(eif.Cond) {
+				merged := &ast.IfStmt{Cond: eif.Cond, Body: &ast.BlockStmt{List: append([]ast.Stmt{eof}, eif.Body.List...)}}
+				fs = &ast.ForStmt{Body: &ast.BlockStmt{List: []ast.Stmt{fs.Body.List[0], merged, fs.Body.List[3]}}}
+			}
+		}
+	}
 	if !ok || fs.Init != nil || fs.Cond != nil || fs.Post != nil || len(fs.Body.List) != 3 {
 		return "", c05sErr(where, "the receive loop")
 	}
